@@ -531,7 +531,7 @@ func runC07Round(w *World, round int) {
 	// ---------- a signer that has left the bonded set since (unbonding, stake still at risk) is still punished
 	w.unbondingSignerCase(la, chainA)
 	// ---------- misbehaviour (light client attack): invalid variants, then a valid one
-	w.misbehaviourCases(la, lb, chainA)
+	w.misbehaviourCases(la, lb, chainA, round%2)
 	// ---------- valid double votes
 	for i := 0; i < 3; i++ {
 		k, pc := signerKey(la, n+1+i)
@@ -591,6 +591,12 @@ func (w *World) keyRelation(id string, k *ConsKey) string {
 
 // forgeHeader builds a conflicting header at the height of `real`, signed by the validators whose addresses are in signers.
 func (w *World) forgeHeader(c *Chain, real *ibctm.Header, signers map[string]bool, chainID string, round int32, mutate func(h *cmttypes.Header)) *ibctm.Header {
+	return w.forgeHeaderWithSet(c, real, signers, chainID, round, mutate, nil)
+}
+
+// forgeHeaderWithSet: as forgeHeader; when ownSet is given the forged header claims that validator set (a subset of the
+// real one, laid out differently), which makes the pair a lunatic-type attack.
+func (w *World) forgeHeaderWithSet(c *Chain, real *ibctm.Header, signers map[string]bool, chainID string, round int32, mutate func(h *cmttypes.Header), ownSet map[string]bool) *ibctm.Header {
 	sh, err := cmttypes.SignedHeaderFromProto(real.SignedHeader)
 	if err != nil {
 		panic(err)
@@ -602,6 +608,16 @@ func (w *World) forgeHeader(c *Chain, real *ibctm.Header, signers map[string]boo
 		mutate(&hdr)
 	}
 	vs := c.ValsAt[hdr.Height]
+	if ownSet != nil {
+		var sub []*cmttypes.Validator
+		for _, v := range vs.Validators {
+			if ownSet[consHex(v.Address)] {
+				sub = append(sub, cmttypes.NewValidator(v.PubKey, v.VotingPower))
+			}
+		}
+		vs = cmttypes.NewValidatorSet(sub)
+		hdr.ValidatorsHash = vs.Hash()
+	}
 	bid := cmttypes.BlockID{Hash: hdr.Hash(), PartSetHeader: cmttypes.PartSetHeader{Total: 3, Hash: tmhash.Sum([]byte("parts"))}}
 	commit := &cmttypes.Commit{Height: hdr.Height, Round: round, BlockID: bid}
 	for i, v := range vs.Validators {
@@ -615,6 +631,14 @@ func (w *World) forgeHeader(c *Chain, real *ibctm.Header, signers map[string]boo
 	}
 	out := proto.Clone(real).(*ibctm.Header)
 	out.SignedHeader = &cmtproto.SignedHeader{Header: hdr.ToProto(), Commit: commit.ToProto()}
+	if ownSet != nil {
+		vp, err := vs.ToProto()
+		if err != nil {
+			panic(err)
+		}
+		vp.TotalVotingPower = vs.TotalVotingPower()
+		out.ValidatorSet = vp
+	}
 	return out
 }
 
@@ -631,7 +655,7 @@ func (w *World) withTrust(c *Chain, h *ibctm.Header, trusted int64) *ibctm.Heade
 	return out
 }
 
-func (w *World) misbehaviourCases(la, lb *Link, chainA string) {
+func (w *World) misbehaviourCases(la, lb *Link, chainA string, variant int) {
 	c := la.C
 	submitter := w.Accts["stranger"]
 	// make sure the provider's client of A is fresh, and pick heights
@@ -672,6 +696,50 @@ func (w *World) misbehaviourCases(la, lb *Link, chainA string) {
 		w.submitEvidence(c07case{name: "lca-invalid:" + name, msg: m, valid: false, consumer: la.CID})
 	}
 	forged := w.withTrust(c, w.forgeHeader(c, c.Headers[H], byz, chainA, 1, nil), trusted)
+	kind := "equivocation"
+	if variant == 1 {
+		// lunatic variant: the forged header claims its own validator set - a subset of the real one that does not start with
+		// the real set's first validator, so the two headers lay their validators out differently - signed by all its members
+		// leave out validator j (the smallest j that works): members before j keep their index, members after j shift by one
+		var sub map[string]bool
+		var subProv []string
+		var sp int64
+		for j := 0; j+1 < len(vs.Validators); j++ {
+			sub, subProv, sp = map[string]bool{}, nil, 0
+			shifted := 0
+			for i, v := range vs.Validators {
+				if i == j || (i > j && shifted > 0 && sp*3 > total+3) {
+					continue
+				}
+				k := w.keyByAddr(v.Address)
+				if k == nil {
+					continue
+				}
+				pc, ok := w.providerConsOf(la.CID, k)
+				if !ok {
+					continue
+				}
+				sub[consHex(v.Address)] = true
+				subProv = append(subProv, pc)
+				sp += v.VotingPower
+				if i > j {
+					shifted++
+				}
+			}
+			if sp*3 > total+3 && shifted > 0 {
+				break
+			}
+			sp = 0
+		}
+		if sp*3 > total+3 && len(sub) >= 1 {
+			byz, byzProv = sub, subProv
+			forged = w.withTrust(c, w.forgeHeaderWithSet(c, c.Headers[H], byz, chainA, 1, nil, byz), trusted)
+			kind = "lunatic-own-subset"
+		} else {
+			w.Infof("lunatic variant not applicable: sub=%d of %d validators, power %d of %d", len(sub), len(vs.Validators), sp, total)
+			w.Event("C07", "lunatic-variant-not-applicable")
+		}
+	}
 	bad("wrong-client-id", mk(real, forged, lb.ProvClient))
 	m2 := mk(real, forged, la.ProvClient)
 	m2.ConsumerId = lb.CID
@@ -696,7 +764,7 @@ func (w *World) misbehaviourCases(la, lb *Link, chainA string) {
 			signers = append(signers, pc)
 		}
 	}
-	w.submitEvidence(c07case{name: fmt.Sprintf("lca-valid signers=%s", bucket(len(signers))), msg: mk(real, forged, la.ProvClient), valid: true, signers: signers, consumer: la.CID})
+	w.submitEvidence(c07case{name: fmt.Sprintf("lca-valid %s signers=%s", kind, bucket(len(signers))), msg: mk(real, forged, la.ProvClient), valid: true, signers: signers, consumer: la.CID})
 }
 
 // unbondingSignerCase: evidence for an infraction at a height at which the validator was in the consumer's set; before the
